@@ -14,6 +14,7 @@ from __future__ import annotations
 from functools import lru_cache
 import itertools as itt
 
+from ..builder import NAMES3, build_ops, replay_sequence, run_sequences
 from ..ctf import base_assignments, event_from_json, event_items, event_json, events, ground_items, item_key, node_to_item
 from ..fscm import FSCM, FWorld
 from ..graphs import G, enum_O, remove_in_edges, subsets, topological_orders
@@ -79,6 +80,8 @@ def shards(tier):
         for j in range(0, len(cfgs), step):
             out.append((i, j, min(j + step, len(cfgs))))
     out.sort(key=lambda t: 0 if t[0] == "hub" else -len(uni[t[0]].nodes))
+    # builder phase: the target graph object and the domain graph objects grown edge by edge, queried after every insertion
+    out += [("build", i) for i in range(len(build_ops(NAMES3)))]
     return out
 
 
@@ -92,7 +95,8 @@ def describe(tier):
         + "); ctfTR: one outcome and one condition item"
         + ("" if tier == "thorough" else " on the policy-free domains")
         + "; every base value assignment; plus ctfTRu on the four-node graphs "
-        "with >=3 bidirected and <=5 edges (quick: the 300 with two directed edges; thorough: all 551), transport-marked sets of <=2 nodes, single all-'-' items with <=1 subscript",
+        "with >=3 bidirected and <=5 edges (quick: the 300 with two directed edges; thorough: all 551), transport-marked sets of <=2 nodes, single all-'-' items with <=1 subscript; builder sequences: every sequence of 3 edge insertions over 3 names applied in place to one target graph "
+        "object and to one selection-diagram object per source domain (no or one transport node), ctfTRu asked for every all-'-' event of up to two items after every insertion",
         "rule": "state = (target graph, domain, event/query); transition = one unconditional_cft / conditional_cft call whose "
         "expression is evaluated on the multi-domain functional witness family and compared with the target probability",
         "assumptions": [
@@ -378,8 +382,73 @@ def explore(res: Res, g: G, cfgs, tier, seed, only=None):
         res.violation("side_effect", {"graph": gj}, "the target graph was modified")
 
 
+def _apply_op(y, op):
+    kind, u, v = op
+    if kind == "n":
+        y.add_node(V(u))
+    elif kind == "d":
+        y.add_directed_edge(V(u), V(v))
+    else:
+        y.add_undirected_edge(V(u), V(v))
+
+
+def _builder_judge(res, seed):
+    """The caller keeps ONE target graph object and ONE selection-diagram object per source domain (no transport node,
+    or one on a single variable; no policy) and adds every new edge to all of them in place; after every insertion the
+    unconditional query is asked for every all-'-' non-reflexive event of up to two items (up to one subscript each)."""
+    from y0.algorithm.counterfactual_transport import CFTDomain
+    from y0.algorithm.transport import transport_variable
+    from y0.dsl import PP, Variable
+    from y0.graph import NxMixedGraph
+
+    from ..graphs import a_topological_order
+    from .C07 import canonical_graph
+
+    state = {"y": None, "doms": {}}
+
+    def judge(y, g, hist):
+        if state["y"] is not y:
+            state["y"], state["doms"] = y, {}
+        cg = canonical_graph(g.nodes, g.di, g.bi)
+        gj = cg.to_json()
+        evs = [
+            items
+            for items in events(cg.nodes, 2, 1, 1, reflexive=False)
+            if not any(star or any(st for _, st in subs) for _, subs, star in items)
+        ]
+        order = a_topological_order(cg)
+        for s in [()] + [(n,) for n in cg.nodes]:
+            yd = state["doms"].get(s)
+            if yd is None:
+                yd = state["doms"][s] = NxMixedGraph()
+                for op in hist:
+                    _apply_op(yd, op)
+                for v in s:
+                    yd.add_directed_edge(transport_variable(V(v)), V(v))
+            else:
+                _apply_op(yd, hist[-1])
+            dom = CFTDomain(
+                graph=yd,
+                population=PP[Variable(POP)]([V(n) for n in cg.nodes]),
+                policy_variables=set(),
+                ordering=[transport_variable(V(v)) for v in s] + [V(n) for n in order],
+            )
+            fam = Family(cg, s, (), seed)
+            dj = {"S": list(s), "Z": [], "order": [str(v) for v in dom.ordering]}
+            for items in evs:
+                case = {"graph": gj, "domain": dj, "event": event_json(items), "builder_ops": hist}
+                check_unconditional(res, cg, y, fam, dom, items, case)
+        res.outcomes["builder_step"] += 1
+        return True
+
+    return judge
+
+
 def work(shard, tier, seed):
     res = Res()
+    if shard[0] == "build":
+        res.states += run_sequences(shard[1], 3, _builder_judge(res, seed), names=NAMES3)
+        return res
     if shard[0] == "hub":
         for g in _hub_graphs(tier)[shard[1] : shard[2]]:
             explore_hub(res, g, tier, seed)
@@ -395,6 +464,13 @@ def replay(case, clause=None):
 
     res = Res()
     g = G.from_json(case["graph"])
+    if "builder_ops" in case:
+        replay_sequence(case["builder_ops"], _builder_judge(res, int(os.environ.get("VERIF_SEED", "0") or 0)))
+        return [
+            v
+            for v in res.violations
+            if v["input"].get("builder_ops") == case["builder_ops"] and v["input"].get("event") == case.get("event") and v["input"].get("domain") == case.get("domain")
+        ][:1]
     if len(g.nodes) == 4:
         explore_hub(res, g, "quick", int(os.environ.get("VERIF_SEED", "0") or 0))
         return [v for v in res.violations if v["input"].get("event") == case.get("event") and v["input"].get("domain") == case.get("domain")]
